@@ -591,6 +591,26 @@ def arm_of(fn, start, is_byte, v):
     return cur
 
 
+def r02_3b(ctx):
+    """a mis-spelled literal is an error, not a `false`: the helper that consumes the tail of `true` / `false` / `null` for
+    the match guards of the owned-lazy loader has already eaten those bytes when it answers; `Ok(false)` sends the caller
+    to its generic arm, which steps back one byte only and re-parses from the middle of the literal"""
+    prog = ctx.prog()
+    f = prog.find("Parser::match_literal", required=False)
+    if f is None:
+        ctx.ob("R02.3b", "match_literal", True, "", "no match_literal helper in this tree", nontrivial=False)
+        return
+    bad = []
+    for b, i, s_ in f.assigns():
+        rv = s_["rv"]
+        if rv["k"] == "agg" and rv.get("variant") == "Ok" and rv["f"] and f.locals[s_["lhs"][0]]["ty"].startswith("core::result::Result<bool"):
+            if op_int(rv["f"][0]) != 1:
+                bad.append(s_.get("ln"))
+    ctx.ob("R02.3b", "match_literal:mismatch-is-an-error", not bad, f.loc(bad[0] if bad else None),
+           "match_literal answers Ok(true) or an error" if not bad else
+           "match_literal can answer Ok(false) after it consumed the bytes: the caller's guard fails, its generic arm steps back one byte and parses from inside the mis-spelled literal (`tru1` is accepted as 1)")
+
+
 def r02_4(ctx):
     """one value-start alphabet: every value dispatcher (a switch on a byte with arms for '-', '"', '[' and
     '{'), evaluated for all 256 byte values, sends exactly '-' and the ten digits to its number arm, exactly
@@ -922,4 +942,4 @@ def r02_s(ctx):
         ctx.include(fn, 'R02.S')
 
 
-RULES = [("R02.1", r02_1), ("R02.2", r02_2), ("R02.3", r02_3), ("R02.4", r02_4), ("R02.5", r02_5), ("R02.6", r02_6), ("R02.7", r02_7), ("R02.8", r02_8), ("R02.9", r02_9), ("R02.10", r02_10), ("R02.11", r02_11), ("R02.12", r02_12), ("R02.13", r02_13), ("R02.S", r02_s)]
+RULES = [("R02.1", r02_1), ("R02.2", r02_2), ("R02.3", r02_3), ("R02.3b", r02_3b), ("R02.4", r02_4), ("R02.5", r02_5), ("R02.6", r02_6), ("R02.7", r02_7), ("R02.8", r02_8), ("R02.9", r02_9), ("R02.10", r02_10), ("R02.11", r02_11), ("R02.12", r02_12), ("R02.13", r02_13), ("R02.S", r02_s)]
